@@ -503,3 +503,144 @@ def generate_text(rng, tier, layout=None, edits=None):
     lines = ["" if r is None else delimiter.join(r) for r in t]
     return {"kind": "text", "layout": layout, "edits": list(edits), "lines": lines, "final_eol": final, "delimiter": delimiter,
             "decimal": decimal, "explicit_delimiter": rng.random() < 0.4, "bom": rng.random() < 0.3, "eol": rng.choice(["\r\n", "\n"])}
+
+
+# ----------------------------------------------------------------------------- histories of calls in one process
+# A "history" case: a few files ("contents": exports of small acquisitions in either layout with their own
+# delimiter / decimal mark / BOM / line ends, and texts that are no export) and a list of steps.  A step names one of two
+# paths, optionally writes one of the contents there (`how`: how the file gets there and what happens to its
+# modification time) and then makes some calls on the path.  Every call is judged by what the path holds when it is made.
+#   how = "keep"         : written in place, then os.utime restores the modification time the path had before
+#         "replace-keep" : written beside it with the old modification time, then os.replace (a restore from an
+#                          archive / backup, cp -p, rsync -t: new inode, same time)
+#         "natural"      : written in place, the file system stamps it
+#         "bump"         : written in place, modification time one second later than before
+HOWS = ["keep", "keep", "keep", "replace-keep", "replace-keep", "natural", "natural", "bump"]
+CALL_SETS = [["sniff"], ["load"], ["sniff", "load"], ["sniff", "load", "data", "params"], ["data"], ["params"], ["load", "load"],
+             ["sniff", "sniff"], ["load", "data"], ["data", "params", "load"]]
+
+
+def history_acq(rng, decimal):
+    n, m, k = rng.choice([1, 2, 2, 3, 4]), rng.choice([2, 2, 3, 4]), rng.choice([1, 1, 2, 3])
+    r = rng.random()
+    if r < 0.55:
+        channels = ["Time", "Analog", "Counter"]
+    elif r < 0.7:
+        channels = ["Time", "Counter"]
+    elif r < 0.8:
+        channels = ["Counter"]
+    else:
+        channels = [c for c in ["Time", "Analog", "Counter"] if rng.random() < 0.7] or ["Analog"]
+    if rng.random() < 0.3:
+        channels = [rng.choice(["X [u]", "X (u)"])] + channels
+    elements = rng.sample(LABELS, k)
+    samples = sample_names(rng, n, 0.6)
+    dt = rng.choice([1.0049, 0.2, 0.25, 0.50005, 0.1, 2.0])
+    tokens = []
+    for i in range(n):
+        per_scan = []
+        for s in range(m):
+            per_el = []
+            for e in range(k):
+                per_ch = []
+                for ch in channels:
+                    if ch == "Time":
+                        tok = f"{0.2 + 0.4 * e + s * dt + rng.choice([0, 1, -1, 2, 3]) * 1e-5:.5f}".rstrip("0")
+                        tok = tok + "0" if tok.endswith(".") else tok
+                    else:
+                        tok = hash_field(rng, ch) or number(rng)
+                    per_ch.append(tok.replace(".", ",") if decimal == "," else tok)
+                per_el.append(per_ch)
+            per_scan.append(per_el)
+        tokens.append(per_scan)
+    return {"samples": samples, "nscans": m, "elements": elements, "channels": channels, "tokens": tokens}
+
+
+def content_size(c) -> int:
+    """bytes of the file a content is written to"""
+    if c["kind"] == "other":
+        body = c["eol"].join(c["lines"]) + (c["eol"] if c["final_eol"] and c["lines"] else "")
+    else:
+        body = text(table_rows(c["acq"]) if c["kind"] == "rows" else table_cols(c["acq"]), c["delimiter"], c["eol"])
+    return len(body.encode("utf-8")) + (3 if c["bom"] else 0)
+
+
+def other_content(rng, size=None):
+    c = generate_other(rng)
+    c = {"kind": "other", "lines": c["lines"], "eol": c["eol"], "bom": c["bom"], "final_eol": c["final_eol"]}
+    if size is not None:            # pad (or rebuild) to exactly `size` bytes: same path, same time, same length
+        c = {**c, "lines": ["1.0,2.0,3.0", "4.0,5.0,6.0"], "bom": False, "eol": "\n", "final_eol": True}
+        short = size - content_size(c)
+        if short >= 1:
+            c["lines"] = c["lines"] + ["7" * (short - 1)]
+        while content_size(c) > size and c["lines"]:
+            c["lines"] = c["lines"][:-1]
+        if content_size(c) < size:
+            c["lines"] = c["lines"] + ["0" * (size - content_size(c) - 1)]
+    return c
+
+
+def call_of(rng, fn, c):
+    """a call on a path that holds content `c`, with the options a user who knows the file would pass"""
+    if fn == "sniff":
+        return {"fn": "sniff"}
+    if c["kind"] == "other":
+        return None
+    has = c["acq"]["channels"]
+    ua = rng.random() < (0.4 if "Analog" in has else 0.08)
+    if not ua and "Counter" not in has and rng.random() < 0.9:
+        ua = True
+    if fn == "load":
+        return {"fn": "load", "use_analog": ua, "full": rng.random() < 0.65}
+    dl = c["delimiter"] if rng.random() < 0.4 else None
+    if fn == "data":
+        return {"fn": "data", "rows": c["kind"] == "rows", "delimiter": dl, "comma": c["decimal"] == ",", "use_analog": ua}
+    return {"fn": "params", "rows": c["kind"] == "rows", "delimiter": dl, "comma": c["decimal"] == ","}
+
+
+def generate_history(rng, tier, script=None):
+    combos = [(",", "."), (";", "."), (";", ",")]
+    rng.shuffle(combos)
+    acqs = []
+    for j in range(rng.choice([1, 2, 2, 3])):
+        delimiter, decimal = combos[j % 3]
+        acqs.append((history_acq(rng, decimal), delimiter, decimal))
+    contents = []
+
+    def export(layout, j):
+        a, delimiter, decimal = acqs[j % len(acqs)]
+        c = {"kind": layout, "delimiter": delimiter, "decimal": decimal, "bom": rng.random() < 0.4, "eol": rng.choice(["\r\n", "\n"]), "acq": a}
+        contents.append(c)
+        return len(contents) - 1
+
+    if script is None:
+        script = []
+        nsteps = rng.choice([3, 4, 4, 5, 6, 7])
+        for q in range(nsteps):
+            script.append({"path": 0 if rng.random() < 0.75 else 1,
+                           "what": rng.choice(["rows", "cols", "rows", "cols", "other", "same", "other-same-size", None, None]),
+                           "acq": rng.randrange(3), "how": rng.choice(HOWS), "calls": rng.choice(CALL_SETS), "mutate": rng.random() < 0.3})
+    cur, steps = {}, []
+    for st in script:
+        p, what = st["path"], st["what"]
+        if p not in cur and what in (None, "same", "other-same-size"):
+            what = rng.choice(["rows", "cols"])
+        if what is None:
+            w = None
+        elif what == "same":
+            w = cur[p]
+        elif what == "other":
+            contents.append(other_content(rng))
+            w = len(contents) - 1
+        elif what == "other-same-size":
+            contents.append(other_content(rng, size=content_size(contents[cur[p]])))
+            w = len(contents) - 1
+        else:
+            w = export(what, st["acq"])
+        if w is not None:
+            cur[p] = w
+        calls = [x for x in (call_of(rng, fn, contents[cur[p]]) for fn in st["calls"]) if x is not None]
+        if not calls:
+            calls = [{"fn": "sniff"}]
+        steps.append({"path": p, "write": w, "how": st["how"], "calls": calls, "mutate": bool(st.get("mutate"))})
+    return {"kind": "history", "contents": contents, "steps": steps}
